@@ -69,28 +69,42 @@ def _lim(**kw):
 
 
 def judge(stream, base, configs, kinds, results, rle):
-    """The property on one program. results/base are canonical outcomes; rle[i]: outcome i is a ResourceLimitError."""
+    """The property on one program. results/base are canonical outcomes; rle[i]: outcome i is a ResourceLimitError.
+    The two listed zero-is-unlimited readings are reported only when nothing else is wrong, so that they can never hide
+    a different violation found in the same sweep."""
+    vs = all_violations(stream, base, configs, kinds, results, rle)
+    if not vs:
+        return None
+    other = [v for v in vs if not v[0].endswith("|zero-is-unlimited")]
+    return (other or vs)[0]
+
+
+def all_violations(stream, base, configs, kinds, results, rle):
+    out = []
     for cfg, kind, r, is_rle in zip(configs, kinds, results, rle):
         if r == base:
             continue
         if r[0] == "ok":
-            return (f"{stream}|{kind}|limit-altered-output", f"{cfg}: completed with an output that differs from the unlimited render ({base[:1]})")
-        if not is_rle:
-            return (f"{stream}|{kind}|other-error|{r[1]}", f"{cfg}: raised {r[1]}, not a ResourceLimitError; unlimited render: {base[0]} {base[1] if base[0] == 'err' else ''}")
-        if kind in lc.LIMIT_ERRORS and r[1] != lc.LIMIT_ERRORS[kind]:
-            return (f"{stream}|{kind}|wrong-limit-error|{r[1]}", f"{cfg}: only {kind} was limited but {r[1]} was raised")
+            out.append((f"{stream}|{kind}|limit-altered-output", f"{cfg}: completed with an output that differs from the unlimited render ({base[:1]})"))
+        elif not is_rle:
+            out.append((f"{stream}|{kind}|other-error|{r[1]}", f"{cfg}: raised {r[1]}, not a ResourceLimitError; unlimited render: {base[0]} {base[1] if base[0] == 'err' else ''}"))
+        elif kind in lc.LIMIT_ERRORS and r[1] != lc.LIMIT_ERRORS[kind]:
+            out.append((f"{stream}|{kind}|wrong-limit-error|{r[1]}", f"{cfg}: only {kind} was limited but {r[1]} was raised"))
     for kind in KINDS:
-        pts = sorted((cfg[kind], r) for cfg, k, r in zip(configs, kinds, results) if k == kind and cfg[kind] is not None)
-        ok_at = None
+        pts = sorted(((cfg[kind], r) for cfg, k, r in zip(configs, kinds, results) if k == kind and cfg[kind] is not None), key=lambda p: p[0])
+        oks = [v for v, r in pts if r[0] == "ok"]
         for v, r in pts:
-            if r[0] == "ok":
-                if ok_at is None:
-                    ok_at = v
-            elif ok_at is not None and r != base:
-                if ok_at == 0 and kind in ("ns", "loop"):
-                    return (f"{kind}|zero-is-unlimited", f"{lc.LIMIT_ATTR[kind]}=0 succeeds but the larger value {v} raises {r[1]}")
-                return (f"{stream}|{kind}|not-monotone", f"succeeds under {kind}={ok_at} but not under the larger value {v} ({r[1]})")
-    return None
+            if r[0] == "ok" or r == base:
+                continue
+            below = [o for o in oks if o < v]
+            if not below:
+                continue
+            if kind in ("ns", "loop") and below == [0]:
+                out.append((f"{kind}|zero-is-unlimited", f"{lc.LIMIT_ATTR[kind]}=0 succeeds but the larger value {v} raises {r[1]}"))
+            else:
+                ok_at = max(o for o in below if not (kind in ("ns", "loop") and o == 0)) if any(not (kind in ("ns", "loop") and o == 0) for o in below) else 0
+                out.append((f"{stream}|{kind}|not-monotone", f"succeeds under {kind}={ok_at} but not under the larger value {v} ({r[1]})"))
+    return out
 
 
 def both_sides(configs, kinds, results, base):
